@@ -39,8 +39,11 @@ def gen_case(rng, maxlen):
             if idx < 0 or idx >= ncols: clamped += 1
             idx = min(max(idx, 0), ncols - 1)
             if idx + start >= ncols: wrapped += 1
-        elif k < 0.85:
+        elif k < 0.80:
             ops.append(["P"]); nxt += dt; start = (start + 1) % ncols
+        elif k < 0.86:
+            # reading what is due is an observation: it may be repeated, and done without advancing (seeded change S7_C10: the read cleared the slot)
+            ops.append(["R"])
         elif k < 0.90:
             ops.append(["C"])
         elif k < 0.93:
@@ -82,6 +85,8 @@ def impl_case(case):
         elif op[0] == "P":
             a = np.zeros(nrx); t = q.py_get_next_queue_time(); q.py_get_next_reactions(a); q.py_advance_time()
             out += ["P", fhex(t)] + [fhex(v) for v in a]
+        elif op[0] == "R":
+            a = np.full(nrx, 3.25); q.py_get_next_reactions(a); out += ["R"] + [fhex(v) for v in a]
         elif op[0] == "C":
             old = q; watch.append((old, _dump(old, nrx, ncols))); q = old.py_copy()
             out += ["C"] + _dump(q, nrx, ncols)
@@ -145,6 +150,10 @@ def oracle(case, impl_res):
             got = toks[pos:pos + 2 + nrx]; pos += 2 + nrx
             if got != want: return "read %r, expected %r" % (got, want)
             base += 1; nxt += dt
+        elif op[0] == "R":
+            want = ["R"] + [fhex(float(table.get((base, r), 0))) for r in range(nrx)]
+            got = toks[pos:pos + 1 + nrx]; pos += 1 + nrx
+            if got != want: return "read without advancing %r, expected %r" % (got, want)
         elif op[0] == "C":
             if toks[pos] != "C": return "desync"
             pos += 1; e = expect_dump(table, "copy")
